@@ -175,7 +175,7 @@ _gatt_prop('C03', 'gatt_c03',
                 'non-trivial = a secondary service lies in a walked range',
            level_text='reported groups must be exactly the declared primary services intersecting the range with their real end handles and UUIDs; sampling')
 
-_gatt_target('gatt_c04', 'handles', 32, 300, quick=dict(cases=4000, size=60, max_seconds=150, opts={'max_ops': 12}), thorough=dict(cases=60000, size=100, max_seconds=2400, opts={'max_ops': 12}))
+_gatt_target('gatt_c04', 'handles', 32, 300, quick=dict(cases=40000, size=60, max_seconds=150, opts={'max_ops': 12}), thorough=dict(cases=60000, size=100, max_seconds=2400, opts={'max_ops': 12}))
 _gatt_prop('C04', 'gatt_c04',
            rule='32 (quick) / 300 (thorough) generated declarations stressing attribute_handle<> on services and characteristics, attribute_handles<D,V,C>, '
                 'descriptors, includes (forward/backward, 16/128 bit), secondary services, GAP service on/off. Per declaration a complete enumeration: '
